@@ -1,7 +1,7 @@
 (* Property C05, tie to the source: the score-formatting arithmetic of engine/uci.go and the mate-in-one test of engine/search.go,
    translated from the source text on every run, are the model functions of the C05 theorems. *)
-From Coq Require Import ZArith List String.
-Require Import Base Generated Uci Search GoLang GeneratedFns GoFnsProofs.
+From Coq Require Import ZArith List String Lia.
+Require Import Base Generated Position Attack Eval Uci Search GoLang GeneratedFns GoFnsProofs.
 Import ListNotations.
 Open Scope Z_scope.
 
@@ -14,6 +14,17 @@ Proof. exact fullMovesToMate_translated. Qed.
 Theorem C05_source_nextMoveWins : forall score, in_int64 score ->
   run_fn fn_nextMoveWins [score] [] = Ok (Returned (b2z (next_move_wins score))).
 Proof. exact nextMoveWins_translated. Qed.
+(* terminalNodeScore: with the position query `isCurrentKingUnderCheck` answering what the model's in_check answers (C09), the
+   source text scores a node without legal moves exactly as the model's terminal_score *)
+Theorem C05_source_terminalNodeScore : forall p position depth nodes, 0 <= depth <= 1000000 ->
+  run_fn_env fn_terminalNodeScore [position; depth]
+    [("position.isCurrentKingUnderCheck()"%string, b2z (in_check p)); ("evaluatedNodes"%string, nodes)]
+  = Ok (Returned (terminal_score p depth)).
+Proof.
+  intros p position depth nodes H. unfold terminal_score.
+  exact (terminalNodeScore_translated position depth nodes (in_check p) ltac:(unfold in_int64; lia) H).
+Qed.
+Print Assumptions C05_source_terminalNodeScore.
 Print Assumptions C05_source_closeToMate.
 Print Assumptions C05_source_fullMovesToMate.
 Print Assumptions C05_source_nextMoveWins.
